@@ -216,6 +216,18 @@ def run_case(chain, cfg, channel):
     if channel == 'slash':
         txt = ''.join(SL.get(c, c) for c in chain)
         return _pytrs.Tract(txt, parse_qq=True, config=cfg_text(cfg)).qqs
+    if channel in ('plss_cfg', 'plss_kw', 'plss_parse_tracts'):
+        txt = 'T154N-R97W Sec 14: ' + ''.join(FR.get(c, c) for c in chain)
+        if channel == 'plss_cfg':
+            d = _pytrs.PLSSDesc(txt, config=cfg_text(cfg), parse_qq=True)
+        elif channel == 'plss_kw':
+            d = _pytrs.PLSSDesc(txt, wait_to_parse=True)
+            d.parse(parse_qq=True, **cfg_kwargs(cfg))
+        else:
+            d = _pytrs.PLSSDesc(txt, config='qq_depth.1' if cfg[2] != 1 else 'qq_depth.3')
+            d.parse_tracts(**cfg_kwargs(cfg))
+        assert len(d.tracts) == 1
+        return d.tracts[0].qqs
     if channel in ('stored_kw', 'stored_maxonly', 'stored_kw_list'):
         # the object carries *other* depth settings from its config; the keywords of this parse() call are what was requested
         mn, mx, d, bh = cfg
@@ -276,6 +288,9 @@ def run_unit(unit, tier):
                 check_case(acc, chain, cfg, 'stored_kw')
                 if L <= 2:
                     check_case(acc, chain, cfg, 'stored_kw_list')
+                    check_case(acc, chain, cfg, 'plss_cfg')
+                    check_case(acc, chain, cfg, 'plss_kw')
+                    check_case(acc, chain, cfg, 'plss_parse_tracts')
                 if cfg[0] == 2 and cfg[1] is not None:     # 2 is the default minimum: giving only the maximum requests the same
                     check_case(acc, chain, cfg, 'stored_maxonly')
                 if chain != ('ALL',):
